@@ -252,6 +252,39 @@ func runC20(c *Ctx) {
 		wstep.add(coqList(obs), map[string]interface{}{"list": "tag", "history": hist})
 		distinct["r"+fmt.Sprint(hist)] = true
 	}
+	// beyond ASCII (implementation against the statement only; the Coq model is ASCII): "lower-cased" is Go's
+	// strings.ToLower, membership is equality of lower-cased trimmed forms - not a looser Unicode folding
+	{
+		ualpha := []string{"\u03bcs", "\u00b5s", "\u03c3", "\u03c2", "\u017f", "s", "S", "\u0130d", "id", "\u212a", "k", "K", "\u00c4 ", "\u00e4", "stra\u00dfe", "STRASSE", "\u1e9e"}
+		unorm := func(x string) string { return strings.ToLower(strings.TrimSpace(x)) }
+		for i := 0; i < 400; i++ {
+			var tl jwt.TagList
+			sp := &ordset{norm: unorm}
+			var hist []lop
+			for j := 0; j < 3+c.Rng.Intn(10); j++ {
+				a := ualpha[c.Rng.Intn(len(ualpha))]
+				if c.Rng.Intn(4) == 0 {
+					tl.Remove(a)
+					sp.remove(a)
+					hist = append(hist, lop{"remove", []string{a}})
+				} else {
+					tl.Add(a)
+					sp.add(a)
+					hist = append(hist, lop{"add", []string{a}})
+				}
+				probe := ualpha[c.Rng.Intn(len(ualpha))]
+				c.sum.ImplChecks++
+				if strings.Join(tl, "\x00") != strings.Join(sp.items, "\x00") || tl.Contains(probe) != sp.has(probe) {
+					c.violation("tag list beyond ASCII: contents or membership differ from the lower-cased ordered-set specification",
+						map[string]interface{}{"list": "tag", "history": append([]lop{}, hist...), "impl": append([]string{}, tl...), "spec": append([]string{}, sp.items...), "probe": probe,
+							"impl_contains": tl.Contains(probe), "spec_contains": sp.has(probe)})
+					break
+				}
+			}
+			c.sum.Evaluations++
+			c.count("tag_beyond_ascii")
+		}
+	}
 	// source networks: both JSON forms
 	calpha := []string{"10.0.0.0/8", "192.168.1.0/24", "::1/128", "A:B::/32", " 10.1.0.0/16 ", "", "fe80::/10"}
 	ncidr := 400
@@ -283,6 +316,18 @@ func runC20(c *Ctx) {
 			panic(err)
 		}
 		c.sum.Evaluations++
+		// the comma-separated form, for ANY entries: the ordered set of the lower-cased, trimmed, non-empty pieces
+		{
+			sp := &ordset{norm: asciiLowerTrim}
+			for _, piece := range strings.Split(strings.Join(es, ","), ",") {
+				sp.add(piece)
+			}
+			c.sum.ImplChecks++
+			if strings.Join(fromStr, "|") != strings.Join(sp.items, "|") || len(fromStr) != len(sp.items) {
+				c.violation("source-network list: the comma-separated form does not decode to the ordered set of its lower-cased trimmed entries",
+					map[string]interface{}{"text": strings.Join(es, ","), "from_string": fromStr, "spec": append([]string{}, sp.items...)})
+			}
+		}
 		if clean {
 			c.sum.ImplChecks++
 			c.count("cidr_clean")
